@@ -21,6 +21,11 @@ def step (line : String) : String :=
 
 /-- L2 lines carry state (the current module): `l2mod <module-sexp>` selects it,
     `@Type <op> ...` runs an L2 op on one of its types. -/
+/-- L2 sub-handlers (one per transfer syntax) -/
+def l2handlers : List Driver.Ops.L2.SubHandler := [
+  Driver.Ops.L2.derHandler
+]
+
 def stepL2 (st : Option Asn1c.L2.ModCtx) (toks : List String) : Option (Option Asn1c.L2.ModCtx × String) :=
   match toks with
   | "l2mod" :: ws =>
@@ -30,7 +35,7 @@ def stepL2 (st : Option Asn1c.L2.ModCtx) (toks : List String) : Option (Option A
   | t :: rest =>
     if t.startsWith "@" then
       match st with
-      | some m => some (st, Driver.Ops.L2.run m (t.drop 1).toString rest)
+      | some m => some (st, (l2handlers.findSome? (fun h => h m (t.drop 1).toString rest)).getD bad)
       | none => some (st, "no-module")
     else none
   | [] => none
